@@ -498,9 +498,42 @@ pub fn run(args: &Args) -> bool {
             ok &= run_list(&ctx, vec![r], check_route);
         } else {
             ok &= run_list(&ctx, all_routes(), check_route);
+            // an implementer that overrides the dispatcher itself receives every meta item, whatever its form and
+            // whichever entry point it came through
+            ok &= run_list(&ctx, (0..FORMS.len()).collect::<Vec<usize>>(), |ctx, k| {
+                fresh_spans();
+                let form = &FORMS[*k];
+                ctx.set_render(json!({"from_meta_override": form.src}));
+                let items = match NestedMeta::parse_meta_list(form.src.parse().unwrap()) {
+                    Ok(i) => i,
+                    Err(e) => fail!("c15:harness-render", "{}: {}", form.src, e),
+                };
+                for item in &items {
+                    if let NestedMeta::Meta(m) = item {
+                        for (entry, r) in [("from_nested_meta", <OwnDispatch as darling_core::FromMeta>::from_nested_meta(item)), ("from_meta", <OwnDispatch as darling_core::FromMeta>::from_meta(m))] {
+                            let msg = r.err().map(|e| e.to_string()).unwrap_or_default();
+                            ensure!(
+                                msg.starts_with("own dispatcher reached"),
+                                "c15:own-from_meta-bypassed",
+                                "an implementer overriding from_meta, given `{}` through {}: `{}` (its from_meta was not called)",
+                                form.src, entry, msg
+                            );
+                        }
+                    }
+                }
+                Ok(())
+            });
             ctx.set_exhaustive(true);
         }
         ctx.finish();
     }
     ok
+}
+
+/// Overrides `from_meta` itself (like Option, the smart pointers, darling's Result and derived newtypes do).
+struct OwnDispatch;
+impl darling_core::FromMeta for OwnDispatch {
+    fn from_meta(_: &syn::Meta) -> darling_core::Result<Self> {
+        Err(darling_core::Error::custom("own dispatcher reached"))
+    }
 }
